@@ -4,9 +4,11 @@ Every function forwards to the array model exactly as the C text does; the const
 the header first and releases it when the inner constructor fails. -/
 namespace CC
 
-/-- `struct cc_stack_s` (the allocator triple is represented by `Mem`) -/
+/-- `struct cc_stack_s`: the wrapped array and the allocator triple copied from the configuration
+(`stack->mem_alloc/mem_calloc/mem_free`); the header is allocated and released through it -/
 structure Stack where
   v : Arr
+  triple : Triple := .conf
 
 namespace Stack
 
@@ -15,26 +17,26 @@ def Inv (s : Stack) : Prop := s.v.Inv
 instance (s : Stack) : Decidable s.Inv := by unfold Inv; infer_instance
 
 /-- `cc_stack_new_conf` -/
-def new (cap : Nat) (grow : Nat → Nat) (exGe : Nat → Bool) (m : Mem) : Stat × Option Stack × Mem :=
-  let a0 := m.alloc
+def new (cap : Nat) (grow : Nat → Nat) (exGe : Nat → Bool) (m : Mem) (t : Triple := .conf) : Stat × Option Stack × Mem :=
+  let a0 := m.allocT t
   if !a0.1 then (.errAlloc, none, a0.2) else
-  let r := Arr.new cap grow exGe a0.2
+  let r := Arr.new cap grow exGe a0.2 t
   match r.2.1 with
-  | some a => if r.1 = .ok then (.ok, some ⟨a⟩, r.2.2) else (r.1, none, r.2.2.free)
-  | none => (r.1, none, r.2.2.free)
+  | some a => if r.1 = .ok then (.ok, some ⟨a, t⟩, r.2.2) else (r.1, none, r.2.2.freeT t)
+  | none => (r.1, none, r.2.2.freeT t)
 
 /-- `cc_stack_destroy` -/
-def destroy (s : Stack) (m : Mem) : Mem := (s.v.destroy m).free
+def destroy (s : Stack) (m : Mem) : Mem := (s.v.destroy m).freeT s.triple
 
 /-- `cc_stack_destroy_cb` -/
 def destroyCb (s : Stack) (m : Mem) : List Nat × Mem :=
   let r := s.v.destroyCb m
-  (r.1, r.2.free)
+  (r.1, r.2.freeT s.triple)
 
 /-- `cc_stack_push` -/
 def push (s : Stack) (x : Nat) (m : Mem) : Stat × Stack × Mem :=
   let r := s.v.add x m
-  (r.1, ⟨r.2.1⟩, r.2.2)
+  (r.1, { s with v := r.2.1 }, r.2.2)
 
 /-- `cc_stack_peek` -/
 def peek (s : Stack) (m : Mem) : Stat × Option Nat × Mem := s.v.getLast m
@@ -42,7 +44,7 @@ def peek (s : Stack) (m : Mem) : Stat × Option Nat × Mem := s.v.getLast m
 /-- `cc_stack_pop` -/
 def pop (s : Stack) (m : Mem) : Stat × Option Nat × Stack × Mem :=
   let r := s.v.removeLast m
-  (r.1, r.2.1, ⟨r.2.2.1⟩, r.2.2.2)
+  (r.1, r.2.1, { s with v := r.2.2.1 }, r.2.2.2)
 
 /-- `cc_stack_size` -/
 def size (s : Stack) : Nat := s.v.size
@@ -53,7 +55,7 @@ def map (s : Stack) (m : Mem) : List Nat × Mem := s.v.map m
 /-- `cc_stack_filter_mut` -/
 def filterMut (p : Nat → Bool) (s : Stack) (m : Mem) : Stat × Stack × List Nat × Mem :=
   let r := s.v.filterMut p m
-  (r.1, ⟨r.2.1⟩, r.2.2.1, r.2.2.2)
+  (r.1, { s with v := r.2.1 }, r.2.2.1, r.2.2.2)
 
 /-- the `while (cc_stack_iter_next(&iter, &e) != CC_ITER_END)` loop of `cc_stack_filter`
 (`n` bounds the number of iterations: `size + 1` suffices) -/
@@ -70,12 +72,13 @@ def filterLoop (p : Nat → Bool) (src : Arr) :
       else filterLoop p src n r.2.2.1 q.2.1 (log ++ [e]) q.2.2
     else filterLoop p src n r.2.2.1 dst (log ++ [e]) r.2.2.2
 
-/-- `cc_stack_filter`: the result is built with the *default* configuration (`dgrow`, `dexGe` are
-the float functions of the default expansion factor) and the source's allocators -/
+/-- `cc_stack_filter`: the result is built with `cc_stack_conf_init`'s *default* capacity and expansion
+factor (`dgrow`, `dexGe` are the float functions of the default factor) and the source's allocator
+triple (`conf.mem_alloc = stack->mem_alloc` …) -/
 def filter (p : Nat → Bool) (s : Stack) (dgrow : Nat → Nat) (dexGe : Nat → Bool) (m : Mem) :
     Stat × Option Stack × List Nat × Mem :=
   if s.size = 0 then (.errOutOfRange, none, [], m) else
-  let r := Stack.new Gen.ARRAY_DEFAULT_CAPACITY dgrow dexGe m
+  let r := Stack.new Gen.ARRAY_DEFAULT_CAPACITY dgrow dexGe m s.triple
   match r.2.1 with
   | none => (r.1, none, [], r.2.2)
   | some f =>
@@ -105,7 +108,7 @@ def iterNext (s : Stack) (it : ArrIter) (m : Mem) : Stat × Option Nat × ArrIte
 /-- `cc_stack_iter_replace` -/
 def iterReplace (s : Stack) (it : ArrIter) (x : Nat) (m : Mem) : Stat × Option Nat × Stack × Mem :=
   let r := s.v.iterReplace it x m
-  (r.1, r.2.1, ⟨r.2.2.1⟩, r.2.2.2)
+  (r.1, r.2.1, { s with v := r.2.2.1 }, r.2.2.2)
 
 /-- `cc_stack_zip_iter_next` -/
 def zipNext (s1 s2 : Stack) (it : ArrIter) (m : Mem) : Stat × Option (Nat × Nat) × ArrIter × Mem :=
@@ -115,7 +118,7 @@ def zipNext (s1 s2 : Stack) (it : ArrIter) (m : Mem) : Stat × Option (Nat × Na
 def zipReplace (s1 s2 : Stack) (it : ArrIter) (x y : Nat) (m : Mem) :
     Stat × Option (Nat × Nat) × Stack × Stack × Mem :=
   let r := Arr.zipReplace s1.v s2.v it x y m
-  (r.1, r.2.1, ⟨r.2.2.1⟩, ⟨r.2.2.2.1⟩, r.2.2.2.2)
+  (r.1, r.2.1, { s1 with v := r.2.2.1 }, { s2 with v := r.2.2.2.1 }, r.2.2.2.2)
 
 end Stack
 end CC
